@@ -105,3 +105,21 @@ Example example_autough2_ok : hyps_ok example_autough2 example_autough2_order = 
 Proof. vm_compute. reflexivity. Qed.
 Example example_tough2_ok : hyps_ok example_tough2 example_tough2_order = true.
 Proof. vm_compute. reflexivity. Qed.
+
+(** the same objects written with the mesh in a separate file *)
+Definition hyps_mesh_ok (d : t2d) (ks : list string) : bool :=
+  match write_files (mk_wcfg 1 None None) d with
+  | Ok _ =>
+      vlist_eqb (map XStr (update_sections d)) (map XStr (sections d)) &&
+      vlist_eqb (map XStr (main_secs d)) (map XStr (map s2l ks)) &&
+      match xprec d with [] => true | _ => false end &&
+      is_end (end_keyword d) && title_ok d && chain_ok d ks (start_state d) && forallb (fun k => negb (k =? "ELEME")) ks &&
+      (let d2 := set_end_keyword (final d ks (start_state d)) (end_keyword d) in
+       forallb (wf_block T0 (rocks d2)) (blocks d) && forallb (wf_conn T0 (canon_blocks T0 (blocks d))) (conns d))
+  | Raise _ => false
+  end.
+Definition no_mesh (ks : list string) : list string := filter (fun k => negb ((k =? "ELEME") || (k =? "CONNE"))) ks.
+Example example_autough2_mesh_ok : hyps_mesh_ok example_autough2 (no_mesh example_autough2_order) = true.
+Proof. vm_compute. reflexivity. Qed.
+Example example_tough2_mesh_ok : hyps_mesh_ok example_tough2 (no_mesh example_tough2_order) = true.
+Proof. vm_compute. reflexivity. Qed.
